@@ -16,7 +16,9 @@ import (
 	"io"
 	"net"
 	"os"
+	"regexp"
 	"sort"
+	"strings"
 	"sync"
 	"sync/atomic"
 	"time"
@@ -266,7 +268,7 @@ func runTCP(o tcpOpts, chunks [][]byte, v *verdict) {
 			cs = sniffing.NewConnSniffer(conn, time.Hour)
 			name, serr = cs.SniffTcp()
 		}); p {
-			report(o.leg, "panic-sniff "+vlib.PanicSite(msg), o.key(), fmt.Sprintf("panic in SniffTcp at %s input=%s", vlib.PanicSite(msg), o.desc()),
+			report(o.leg, "panic-sniff "+panicSite(msg), o.key(), fmt.Sprintf("panic in SniffTcp at %s input=%s", panicSite(msg), o.desc()),
 				map[string]any{"chunks": hxs(chunks), "stream": hx(conn.all), "panic": msg})
 			return
 		}
@@ -286,7 +288,7 @@ func runTCP(o tcpOpts, chunks [][]byte, v *verdict) {
 		var got []byte
 		var derr error
 		if p, msg := vlib.Try(func() { derr = drainRoute(cs, route, len(conn.all), &got) }); p {
-			report(o.leg, "panic-drain "+routeNames[route]+" "+vlib.PanicSite(msg), o.key(), fmt.Sprintf("panic while draining route=%s at %s input=%s", routeNames[route], vlib.PanicSite(msg), o.desc()),
+			report(o.leg, "panic-drain "+routeNames[route]+" "+panicSite(msg), o.key(), fmt.Sprintf("panic while draining route=%s at %s input=%s", routeNames[route], panicSite(msg), o.desc()),
 				map[string]any{"chunks": hxs(chunks), "panic": msg})
 			return
 		}
@@ -307,6 +309,21 @@ func runTCP(o tcpOpts, chunks [][]byte, v *verdict) {
 		}
 		vlib.Try(func() { cs.Close() })
 	}
+}
+
+var panicSiteRe = regexp.MustCompile(`(component/sniffing/[A-Za-z0-9_/]+\.go):(\d+)`)
+
+// panicSite: innermost frame of the code under test (stable whatever directory the tree lives in).
+func panicSite(msg string) string {
+	for _, ln := range strings.Split(msg, "\n") {
+		if strings.Contains(ln, "zz_verif") {
+			continue
+		}
+		if m := panicSiteRe.FindStringSubmatch(ln); m != nil {
+			return m[1] + ":" + m[2]
+		}
+	}
+	return "unknown-site"
 }
 
 func firstDiff(a, b []byte) int {
@@ -380,7 +397,7 @@ func runGuardedTCP(leg, key, desc string, data []byte, v *verdict) {
 				name, err = s.SniffHttp()
 			}
 		}); p {
-			report(leg, "out-of-bounds/panic "+which+" "+vlib.PanicSite(msg), key, fmt.Sprintf("%s on an exactly-sized buffer panics at %s input=%s", which, vlib.PanicSite(msg), desc),
+			report(leg, "out-of-bounds/panic "+which+" "+panicSite(msg), key, fmt.Sprintf("%s on an exactly-sized buffer panics at %s input=%s", which, panicSite(msg), desc),
 				map[string]any{"input": hx(data), "panic": msg})
 			continue
 		}
@@ -415,7 +432,7 @@ func runUDP(leg, key, desc string, dgrams [][]byte, v *verdict, recognise bool) 
 		}); p {
 			dt := detail()
 			dt["panic"] = msg
-			report(leg, "panic-sniff "+vlib.PanicSite(msg), key, fmt.Sprintf("panic in SniffUdp at %s (datagram %d) input=%s", vlib.PanicSite(msg), i, desc), dt)
+			report(leg, "panic-sniff "+panicSite(msg), key, fmt.Sprintf("panic in SniffUdp at %s (datagram %d) input=%s", panicSite(msg), i, desc), dt)
 			return
 		}
 		if !bytes.Equal(in, d) {
@@ -471,7 +488,7 @@ func runUDPSingle(leg, key, desc string, d []byte, v *verdict) {
 			}
 			name, err = s.SniffUdp()
 		}); p {
-			report(leg, "out-of-bounds/panic SniffUdp("+form+") "+vlib.PanicSite(msg), key, fmt.Sprintf("SniffUdp (%s buffer) panics at %s input=%s", form, vlib.PanicSite(msg), desc),
+			report(leg, "out-of-bounds/panic SniffUdp("+form+") "+panicSite(msg), key, fmt.Sprintf("SniffUdp (%s buffer) panics at %s input=%s", form, panicSite(msg), desc),
 				map[string]any{"datagram": hx(d), "panic": msg})
 			continue
 		}
